@@ -1032,7 +1032,7 @@ class Router(object):
                     if final:
                         raise ValueError(pattern)
                     tokens.append(part[1: -1])
-                    re_str += "\\/?(.+)"
+                    re_str += "\\/([^\\/].*)"
                     final = True
                 else:
                     tokens.append(part[1:])
